@@ -931,7 +931,13 @@ fn cmd_router(inp: &str, outp: &str) {
                 b
             })
         } else {
-            sc.ctx.scion_packet_udp(&data, 22222, 11111).into_raw().try_encode_to_owned_view().map(|v| v.as_slice().to_vec()).map_err(|e| format!("{e:?}"))
+            // UDP offender; "pay" = payload size (to reach the quote budget in natural flows)
+            let pay = c.get("pay").and_then(|x| x.as_u64()).unwrap_or(24) as usize;
+            let big = rng.bytes(pay);
+            sc.ctx.scion_packet_udp(&big, 22222, 11111).into_raw().try_encode_to_owned_view().map(|v| v.as_slice().to_vec()).map_err(|e| format!("{e:?}")).map(|mut b| {
+                wire::fix_l4_checksum(&mut b);
+                b
+            })
         };
         let Ok(original) = pkt else {
             w.write(&json!({"i": i, "build_err": pkt.err()}));
@@ -976,7 +982,8 @@ fn cmd_router(inp: &str, outp: &str) {
             rets.push(m);
         }
         o["returned"] = json!(rets);
-        o["pkt"] = json!(wire::hex(&original));
+        o["offender_len"] = json!(original.len());
+        o["pkt"] = json!(if original.len() <= 400 { wire::hex(&original) } else { format!("{}...({} bytes)", wire::hex(&original[..200]), original.len()) });
         w.write(&o);
     }
     w.finish();
@@ -1484,6 +1491,288 @@ fn cmd_record(evp: &str, resp: &str) {
     });
 }
 
+// =================================================================================================
+// exchange: finished exchanges of ScmpExchange.tla on real end-host handlers + the real simulated network
+// =================================================================================================
+
+struct ExchangeWorld {
+    healthy: TestPathContext,
+    broken: TestPathContext,
+    a: ScionAddr,
+    b: ScionAddr,
+    /// path bytes (type 1) for packets originated at B towards A (reversal of what arrives at B)
+    path_b_to_a: Vec<u8>,
+}
+
+fn exchange_world() -> Option<ExchangeWorld> {
+    let a = ScionAddr::new(ia(1, 1), v4(10, 0, 0, 1));
+    let b = ScionAddr::new(ia(1, 99), v4(11, 0, 0, 1));
+    let mk = |down: bool| {
+        let bd = TestPathBuilder::new(a, b).up().add_hop(0, 1);
+        let bd = if down { bd.add_hop_with_egress_down(2, 3) } else { bd.add_hop(2, 3) };
+        bd.add_hop(4, 0).build(100)
+    };
+    let healthy = mk(false);
+    let broken = mk(true);
+    // probe: what does a packet from A look like when it arrives at B?
+    let rb = Arc::new(RecReceiver::default());
+    let mut targets = NetworkReceiverRegistry::new();
+    targets.add_receiver(ia(1, 99), "11.0.0.1/32".parse().unwrap(), rb.clone()).ok()?;
+    let ext = ExternalAsRegistry::new();
+    let topo = healthy.build_topology();
+    let mut probe = healthy.scion_packet_udp(b"probe", 1, 2).into_raw().try_encode_to_owned_view().ok()?.as_slice().to_vec();
+    let (view, _) = ScionRawPacketView::try_from_mut_slice(&mut probe).ok()?;
+    NetworkSimulator::new(&targets, &ext, &topo, false).dispatch(ia(1, 1), 0, ScionNetworkTime(100), view);
+    let got = rb.got.lock().unwrap().clone();
+    let h = wire::parse_hdr(got.first()?)?;
+    let path_b_to_a = wire::reverse_standard(&h.path)?;
+    Some(ExchangeWorld { healthy, broken, a, b, path_b_to_a })
+}
+
+/// class of a real packet in the vocabulary of ScmpExchange
+fn exchange_kind(bytes: &[u8]) -> String {
+    let Some(h) = wire::parse_hdr(bytes) else { return "unparsable".into() };
+    if h.next == wire::PROTO_UDP {
+        return "dgram".into();
+    }
+    match wire::describe_scmp(bytes) {
+        None => "other".into(),
+        Some((_, d)) => {
+            if !d.complete || !d.cksum_ok {
+                "bad".into()
+            } else {
+                match d.t {
+                    128 => "req".into(),
+                    129 => "rep".into(),
+                    1 | 2 | 4 | 5 | 6 => "err".into(),
+                    t if t < 128 => "uerr".into(),
+                    _ => "uinfo".into(),
+                }
+            }
+        }
+    }
+}
+
+/// ancestry key of message `id` (1-based) in a list of (kind, by, src, cause)
+fn real_key(msgs: &[(String, String, String, usize)], id: usize) -> String {
+    let (k, by, src, cause) = &msgs[id - 1];
+    if *cause == 0 || *cause > msgs.len() { format!("({k},{src})") } else { format!("({k},{by},{})", real_key(msgs, *cause)) }
+}
+
+fn cmd_exchange(inp: &str, outp: &str) {
+    let beh = read_ndjson(inp);
+    let mut w = NdjsonWriter::create(outp);
+    let mut rng = Rng::new(seed_from_env() ^ 0xC14F);
+    let Some(world) = exchange_world() else {
+        // the probe through the healthy network did not arrive: report per behaviour, let the check judge
+        for (i, _) in beh.iter().enumerate() {
+            w.write(&json!({"i": i, "world_failed": true}));
+        }
+        w.finish();
+        return;
+    };
+    let ext = ExternalAsRegistry::new();
+    for (i, b) in beh.iter().enumerate() {
+        let log = b["log"].as_array().unwrap();
+        // receivers of the two hosts
+        let ra = Arc::new(RecReceiver::default());
+        let rb = Arc::new(RecReceiver::default());
+        let mut targets = NetworkReceiverRegistry::new();
+        targets.add_receiver(ia(1, 1), "10.0.0.1/32".parse().unwrap(), ra.clone()).unwrap();
+        targets.add_receiver(ia(1, 99), "11.0.0.1/32".parse().unwrap(), rb.clone()).unwrap();
+        // application-side error receivers of the two hosts
+        let ea = Arc::new(ErrRecorder::default());
+        let eb = Arc::new(ErrRecorder::default());
+        // real messages: (bytes, cause, by, at_host (already delivered there: router errors), src host name)
+        struct RealMsg {
+            bytes: Vec<u8>,
+            cause: usize,
+            by: &'static str,
+            src: &'static str,
+            dst: &'static str,
+            pre_delivered: bool,
+            /// the bytes as they arrived at the destination host (what its handlers saw)
+            arrived: Option<Vec<u8>>,
+        }
+        let mut msgs: Vec<RealMsg> = vec![];
+        // originated messages in model order (cause = 0); children are appended as the real code creates them
+        let originated: Vec<&Value> = log.iter().filter(|m| m["cause"].as_u64() == Some(0)).collect();
+        let mut orig_iter = originated.iter();
+        // model fates by ancestry key
+        let model_tuples: Vec<(String, String, String, usize)> = log
+            .iter()
+            .map(|m| (m["k"].as_str().unwrap().to_string(), m["by"].as_str().unwrap().to_string(), m["src"].as_str().unwrap().to_string(), m["cause"].as_u64().unwrap() as usize))
+            .collect();
+        let mut model_fates: std::collections::HashMap<String, Vec<String>> = std::collections::HashMap::new();
+        for (j, m) in log.iter().enumerate() {
+            model_fates.entry(real_key(&model_tuples, j + 1)).or_default().push(m["fate"].as_str().unwrap().to_string());
+        }
+        let mut panic: Option<String> = None;
+        let mut steps = 0usize;
+        let mut idx = 0usize; // next message to settle (id = idx+1)
+        let mut notes: Vec<String> = vec![];
+        loop {
+            // originate the next spontaneous message whenever the model does (model ids are creation-ordered: a message with
+            // cause 0 appears at the position where it was created)
+            let model_here = log.get(msgs.len());
+            if let Some(m) = model_here {
+                if m["cause"].as_u64() == Some(0) {
+                    let m = orig_iter.next().unwrap();
+                    let k = m["k"].as_str().unwrap();
+                    let from_a = m["src"].as_str() == Some("A");
+                    let (src, dst) = if from_a { (world.a, world.b) } else { (world.b, world.a) };
+                    let path = if from_a { world.healthy.data_plane_path.clone() } else { dp_path_from_bytes(1, &world.path_b_to_a).unwrap_or(DpPath::Empty) };
+                    let id = (msgs.len() + 1) as u16;
+                    let quote = offender_bytes(70, &mut rng);
+                    let data = rng.bytes(16);
+                    let bytes = if k == "dgram" {
+                        sciparse::packet::model::ScionUdpPacket::new(
+                            sciparse::address::socket_addr::ScionSocketAddr::new(src.isd_asn(), src.host(), 4000),
+                            sciparse::address::socket_addr::ScionSocketAddr::new(dst.isd_asn(), dst.host(), 5000),
+                            path,
+                            data.clone(),
+                        )
+                        .into_raw()
+                        .try_encode_to_owned_view()
+                        .map(|v| v.as_slice().to_vec())
+                    } else {
+                        let t = match k {
+                            "req" | "bad" => 128,
+                            "rep" => 129,
+                            "err" => 4,
+                            "uerr" => 100,
+                            _ => 200,
+                        };
+                        let m = scmp_template(t, 0, id, 1, &data, &quote, &mut rng);
+                        ScionRawPacket::new(src, dst, path, ProtocolNumber::Scmp, m).try_encode_to_owned_view().map(|v| v.as_slice().to_vec())
+                    };
+                    match bytes {
+                        Ok(mut bts) => {
+                            wire::fix_l4_checksum(&mut bts);
+                            if k == "bad" {
+                                let hl = bts[5] as usize * 4;
+                                bts[hl + 2] ^= 0x55;
+                                bts[hl + 3] ^= 0xaa;
+                            }
+                            msgs.push(RealMsg { bytes: bts, cause: 0, by: "host", src: if from_a { "A" } else { "B" }, dst: if from_a { "B" } else { "A" }, pre_delivered: false, arrived: None });
+                        }
+                        Err(e) => {
+                            notes.push(format!("could not build originated {k}: {e:?}"));
+                            break;
+                        }
+                    }
+                    continue;
+                }
+            }
+            if idx >= msgs.len() {
+                break;
+            }
+            steps += 1;
+            if steps > 40 {
+                notes.push("more than 40 messages settled: exchange does not die out".into());
+                break;
+            }
+            // settle message idx with the fate the model chose for the message of the same ancestry
+            // (unexpected extra messages: delivered)
+            let key = real_key(&msgs.iter().map(|m| (exchange_kind(&m.bytes), m.by.to_string(), m.src.to_string(), m.cause)).collect::<Vec<_>>(), idx + 1);
+            let fate = model_fates.get_mut(&key).and_then(|v| if v.is_empty() { None } else { Some(v.remove(0)) }).unwrap_or_else(|| "delivered".to_string());
+            let id = idx + 1;
+            let (bytes, src_name, dst_name, pre) = {
+                let m = &msgs[idx];
+                (m.bytes.clone(), m.src, m.dst, m.pre_delivered)
+            };
+            idx += 1;
+            if fate == "lost" {
+                continue;
+            }
+            let src_as = if src_name == "A" { ia(1, 1) } else { ia(1, 99) };
+            let before_a = ra.got.lock().unwrap().len();
+            let before_b = rb.got.lock().unwrap().len();
+            if !pre {
+                let ctx = if fate == "failed" { &world.broken } else { &world.healthy };
+                let mut work = bytes.clone();
+                let r = catch(|| {
+                    let topo = ctx.build_topology();
+                    if let Ok((view, _)) = ScionRawPacketView::try_from_mut_slice(&mut work) {
+                        NetworkSimulator::new(&targets, &ext, &topo, false).dispatch(src_as, 0, ScionNetworkTime(100), view);
+                    }
+                });
+                if let Err(p) = r {
+                    panic = Some(p);
+                    break;
+                }
+            }
+            // what arrived where
+            let new_a: Vec<Vec<u8>> = ra.got.lock().unwrap()[before_a..].to_vec();
+            let new_b: Vec<Vec<u8>> = rb.got.lock().unwrap()[before_b..].to_vec();
+            let mut arrivals: Vec<(&'static str, Vec<u8>)> = vec![];
+            if pre {
+                arrivals.push((dst_name, bytes.clone()));
+            }
+            for x in new_a {
+                arrivals.push(("A", x));
+            }
+            for x in new_b {
+                arrivals.push(("B", x));
+            }
+            for (host, pkt) in arrivals {
+                // the message itself (L4 bytes unchanged in flight) or a packet created by the network about it?
+                let l4 = |x: &[u8]| wire::parse_hdr(x).map(|h| h.payload(x).to_vec());
+                let is_own = l4(&pkt).is_some() && l4(&pkt) == l4(&bytes);
+                if !pre && !is_own {
+                    // a packet created by the network (router error about message id): it is a new message, already at its destination
+                    msgs.push(RealMsg { bytes: pkt.clone(), cause: id, by: "router", src: "R", dst: host, pre_delivered: true, arrived: None });
+                    continue;
+                }
+                if fate == "failed" && !pre {
+                    notes.push(format!("message {id} arrived at {host} although the link is down"));
+                }
+                msgs[id - 1].arrived = Some(pkt.clone());
+                // the host's SCMP handlers (socket wiring: error handler with the application receiver, then echo handler)
+                let Ok((view, _)) = ScionRawPacketView::try_from_slice(&pkt) else { continue };
+                if wire::parse_hdr(&pkt).map(|h| h.next) != Some(wire::PROTO_SCMP) {
+                    continue;
+                }
+                let er: Vec<Arc<dyn ScmpErrorReceiver>> = vec![if host == "A" { ea.clone() } else { eb.clone() }];
+                let r = catch(|| {
+                    let mut out = vec![];
+                    if let Some(x) = sockhook::scmp_error_handler(&er).handle(view) {
+                        out.push(x);
+                    }
+                    if let Some(x) = DefaultEchoHandler::new().handle(view) {
+                        out.push(x);
+                    }
+                    out.into_iter().filter_map(|x| x.try_encode_to_owned_view().ok().map(|v| v.as_slice().to_vec())).collect::<Vec<_>>()
+                });
+                match r {
+                    Err(p) => {
+                        panic = Some(p);
+                    }
+                    Ok(replies) => {
+                        for rp in replies {
+                            let other = if host == "A" { "B" } else { "A" };
+                            msgs.push(RealMsg { bytes: rp, cause: id, by: "host", src: host, dst: other, pre_delivered: false, arrived: None });
+                        }
+                    }
+                }
+            }
+            if panic.is_some() {
+                break;
+            }
+        }
+        let real: Vec<Value> = msgs
+            .iter()
+            .map(|m| {
+                let faithful = if m.by == "host" && m.cause > 0 { Some(echo_faithful(msgs[m.cause - 1].arrived.as_deref().unwrap_or(&msgs[m.cause - 1].bytes), &m.bytes)) } else { None };
+                json!({"k": exchange_kind(&m.bytes), "cause": m.cause, "by": m.by, "src": m.src, "dst": m.dst,
+                       "faithful": faithful.as_ref().map(|f| f.0 && f.2), "why": faithful.map(|f| f.1)})
+            })
+            .collect();
+        w.write(&json!({"i": i, "real": real, "notified_a": ea.got.lock().unwrap().len(), "notified_b": eb.got.lock().unwrap().len(), "panic": panic, "notes": notes}));
+    }
+    w.finish();
+}
+
 fn main() {
     quiet_panics();
     let a: Vec<String> = std::env::args().collect();
@@ -1507,6 +1796,7 @@ fn main() {
         "router" => cmd_router(&a[2], &a[3]),
         "socket" => cmd_socket(&a[2], &a[3]),
         "record" => cmd_record(&a[2], &a[3]),
+        "exchange" => cmd_exchange(&a[2], &a[3]),
         _ => {
             eprintln!("unknown subcommand");
             std::process::exit(2)
